@@ -149,7 +149,7 @@ fn ids(c: &Sx) -> Sx {
         let t = c[1].as_usize()?;
         let k = c[2].as_usize()?;
         let via = c[3].as_z()?;
-        if t > 256 || k > 10_000_000 || !(0..=2).contains(&via) { return None; }
+        if t > 256 || k > 10_000_000 || !(0..=3).contains(&via) { return None; }
         let barrier = Arc::new(Barrier::new(t.max(1)));
         let mut hs = Vec::new();
         for _ in 0..t {
@@ -160,6 +160,21 @@ fn ids(c: &Sx) -> Sx {
                     let mut g = Graph::new();
                     b.wait();
                     for i in 0..k { out.push(g.add_node((i & 0xffff) as i32)); }
+                } else if via == 3 {
+                    // create, remove, create again, also on a clone: an id is never handed out twice, removed or not
+                    let mut g = Graph::new();
+                    b.wait();
+                    for i in 0..k {
+                        let id = g.add_node((i & 0xffff) as i32);
+                        out.push(id);
+                        if i % 2 == 0 {
+                            let mut h = g.clone();
+                            g.remove_node(id);
+                            out.push(g.add_node(1));
+                            h.remove_node(id);
+                            out.push(h.add_node(2));
+                        }
+                    }
                 } else if via == 2 {
                     // node creation interleaved with complete, unrelated top-level runs (fresh states, no GRAPH stack):
                     // "never handed out twice in a process" whatever else the process runs in between
